@@ -298,14 +298,15 @@ def job_trefethen_strip(ctx: Ctx):
             import mpmath
             r = float(m.get("rho", 3.0))
             got = float(og._dergstrip(r, np.array([1.0]))[0])
-            # independent: limit of the difference quotient of _gstrip towards s = 1 in 40-digit arithmetic
+            # independent: by L'Hopital the limit of g_u/cos(u) at u = pi/2 is -g_uu(pi/2); g(u) re-typed from the docstring, 40 digits
             mpmath.mp.dps = 40
             tau = mpmath.pi / mpmath.log(r)
             termd = mpmath.mpf(1) / 2 + 1 / (mpmath.exp(tau * mpmath.pi) + 1)
             cn = 1 / (mpmath.log(1 + mpmath.exp(-tau * mpmath.pi)) - mpmath.log(2) + mpmath.pi * tau * termd / 2)
-            gfun = lambda sv: cn * (mpmath.log(1 + mpmath.exp(-tau * (mpmath.pi / 2 + mpmath.asin(sv)))) - mpmath.log(1 + mpmath.exp(-tau * (mpmath.pi / 2 - mpmath.asin(sv)))) + termd * tau * mpmath.asin(sv))
-            lim = mpmath.diff(gfun, mpmath.mpf(1) - mpmath.mpf(10) ** -12, h=mpmath.mpf(10) ** -14, direction=-1)
-            return abs(got - float(lim)) > 1e-4 * max(abs(got), 1e-12), dict(rho=r, dergstrip_at_1=got, left_derivative_of_gstrip_near_1=float(lim))
+            gofu = lambda uu: cn * (mpmath.log(1 + mpmath.exp(-tau * (mpmath.pi / 2 + uu))) - mpmath.log(1 + mpmath.exp(-tau * (mpmath.pi / 2 - uu))) + termd * tau * uu)
+            lim = -mpmath.diff(gofu, mpmath.pi / 2, 2)
+            mpmath.mp.dps = 15
+            return abs(got - float(lim)) > 1e-9 * max(abs(got), 1e-12), dict(rho=r, dergstrip_at_1=got, limit_of_gstrip_derivative_at_1=float(lim))
     # interior
     saved = list(e.assumptions)
     e.assume(s > K(-1) + Fraction(1, 10 ** 7), s < K(1) - Fraction(1, 10 ** 7))
@@ -368,8 +369,16 @@ def job_gauss_wiring(ctx: Ctx, n):
     for x in xs:
         e.assume(x > 0)
     ctx.bounds.update(dict(n=n, alpha="symbolic > -1", providers="stubbed: symbolic nodes/weights of the Gauss rule for the provider's weight function"))
-    og.roots_genlaguerre = lambda npts, a: (arr(list(xs)), arr(list(vs)))
-    og.roots_chebyu = lambda npts: (arr(list(xs)), arr(list(vs)))
+    orig = (og.roots_genlaguerre, og.roots_chebyu)
+    stubs = (lambda npts, a: (arr(list(xs)), arr(list(vs))), lambda npts: (arr(list(xs)), arr(list(vs))))
+    og.roots_genlaguerre, og.roots_chebyu = stubs
+
+    class real_providers:
+        def __enter__(self):
+            og.roots_genlaguerre, og.roots_chebyu = orig
+
+        def __exit__(self, *a):
+            og.roots_genlaguerre, og.roots_chebyu = stubs
 
     class Poly:
         class legendre:
@@ -382,7 +391,7 @@ def job_gauss_wiring(ctx: Ctx, n):
 
     def replay_lag(m):
         import scipy.special as sp, mpmath
-        with unpatched(og, bg):
+        with unpatched(og, bg), real_providers():
             al = float(m.get("alpha", -0.5))
             g = og.GaussLaguerre(n, al)
             # independent: rule must integrate x^alpha e^-x * 1 and * x exactly: sum w_i f(x_i) with f = x^alpha e^-x p(x)
@@ -412,7 +421,7 @@ def job_gauss_wiring(ctx: Ctx, n):
 
     def chk(name, build, wexp, xexp):
         def replay(m):
-            with unpatched(og, bg):
+            with unpatched(og, bg), real_providers():
                 g = getattr(og, name)(n)
                 # moments of 1 and x^2 against the plain weight on [-1,1]
                 got0, got2 = float(np.sum(g.weights)), float(np.sum(g.weights * g.points ** 2))
